@@ -305,6 +305,63 @@ fn mk(cfg: &RunCfg) -> Box<dyn Oracle> {
     Box::new(C01 { guarded: cfg.guards.contains("guarded") })
 }
 
+/// Scripted story "deep fork": one member's commit (the MIP-03 winner: earliest timestamp) is
+/// held back by the relay while another member extends the competing branch by k commits that
+/// everybody else applies, k at or just below the smallest configured snapshot retention among
+/// them; then the winner is released. Everybody has to roll back k epochs and converge on it.
+fn deep_fork_story(gn: &mut Gen, w: &mut World) -> Option<Step> {
+    if w.groups.is_empty() || w.probes.contains_key("deep_fork_story") || gn.rng().chance(1, 2) {
+        return None;
+    }
+    let g = 0usize;
+    let n = w.nodes.len();
+    let members: Vec<usize> = (0..n).filter(|x| w.is_active_member(*x, g)).collect();
+    if members.len() < 3 {
+        return None;
+    }
+    let states: BTreeSet<Option<(u64, String)>> = members.iter().map(|m| w.node_state(*m, g)).collect();
+    if states.len() != 1 || members.iter().any(|m| w.has_pending_commit(*m, g)) {
+        return None;
+    }
+    // the winner's author is the member whose clock is furthest behind, so that its commit
+    // carries the earliest wrapper timestamp whatever the skew
+    let a = *members.iter().min_by_key(|m| (w.nodes[**m].cfg.clock_offset, **m))?;
+    let others: Vec<usize> = members.iter().copied().filter(|m| *m != a).collect();
+    let b = *gn.rng().pick(&others)?;
+    let ret = others.iter().map(|m| w.nodes[*m].cfg.epoch_snapshot_retention).min().unwrap_or(5);
+    let k = (ret as i64 - gn.rng().below(2) as i64).max(1) as usize;
+    let first = gn.mk(w, a, 0, Op::SelfUpdate { g });
+    let winner = EvRef(first.id, 0);
+    let st = gn.mk(w, a, 0, Op::MergePending { g });
+    gn.queue.push_back(st);
+    let mut count = 1usize;
+    for _ in 0..k {
+        let up = gn.mk(w, b, 1, Op::SelfUpdate { g });
+        let ci = EvRef(up.id, 0);
+        gn.queue.push_back(up);
+        count += 1;
+        for x in &others {
+            let st = gn.mk(w, *x, 0, Op::Deliver { ev: ci });
+            gn.queue.push_back(st);
+            count += 1;
+        }
+    }
+    for x in &others {
+        let st = gn.mk(w, *x, 0, Op::Deliver { ev: winner });
+        gn.queue.push_back(st);
+        count += 1;
+    }
+    gn.hold_until.insert(winner, gn.emitted + count + 2);
+    w.probe("deep_fork_story");
+    w.probe(&format!("deep_fork_depth_{k}"));
+    Some(first)
+}
+
+fn with_deep_forks(g: &mut Gen) {
+    g.hostile_hook = Some(deep_fork_story);
+    g.cfg.weights.hostile = g.cfg.weights.hostile.max(2);
+}
+
 pub fn spec() -> CheckSpec {
     let mut guards = BTreeSet::new();
     guards.insert("guarded".to_string());
@@ -324,6 +381,7 @@ pub fn spec() -> CheckSpec {
             Variant { name: "sqlite-causal", profile: Profile { backend: BackendMix::Mixed, ..base.clone() }, runs_quick: 120, runs_thorough: 6000, oracle: mk, guarded: false, configure_gen: None, post: None, custom: None },
             Variant { name: "sqlite-causal-guarded", profile: Profile { backend: BackendMix::Mixed, guards: guards.clone(), allow_immediate: false, ..base.clone() }, runs_quick: 120, runs_thorough: 6000, oracle: mk, guarded: true, configure_gen: None, post: None, custom: None },
             Variant { name: "mem-causal-guarded", profile: Profile { backend: BackendMix::Memory, guards: guards.clone(), allow_immediate: false, ..base.clone() }, runs_quick: 400, runs_thorough: 20000, oracle: mk, guarded: true, configure_gen: None, post: None, custom: None },
+            Variant { name: "deep-forks-guarded", profile: Profile { backend: BackendMix::Mixed, guards: guards.clone(), allow_immediate: false, retention: Some((5, 8)), ..base.clone() }, runs_quick: 80, runs_thorough: 4000, oracle: mk, guarded: true, configure_gen: Some(with_deep_forks), post: None, custom: None },
             Variant { name: "mem-unrestricted", profile: Profile { backend: BackendMix::Memory, regime: Regime::Unrestricted, ..base.clone() }, runs_quick: 200, runs_thorough: 10000, oracle: mk, guarded: false, configure_gen: None, post: None, custom: None },
         ],
         assumptions: vec!["honest members only", "clock skew within max_future_skew_secs"],
